@@ -556,7 +556,10 @@ def _for_symbolic(engine, st, fr, s, it):
                 elif ctrl[0] == "break":
                     yield st2, None
                 else:
-                    if spec.body_post is not None and ctrl[0] == "raise":
+                    if spec.raise_post is not None and ctrl[0] == "raise":
+                        for (nm, f) in spec.raise_post(engine, st2, fr, dict(ctx, i=i, x=x), ctrl[1]):
+                            engine.oblige(st2, fr, "loop %s#%d body raises: %s" % (fr.func.qualname.split(".")[-1], ordinal, nm), "LI", f)
+                    elif spec.body_post is not None and ctrl[0] == "raise":
                         engine.oblige(st2, fr, "loop %s#%d body: no exception leaves the loop" % (fr.func.qualname.split(".")[-1], ordinal), "LI", z3.BoolVal(False))
                     yield st2, ctrl
 
